@@ -1,5 +1,5 @@
 (* C15 - Encoding then decoding (and decoding then encoding) is the identity. *)
-From Ctap Require Import Base Schema Wire Utf8 Typed WellTyped Procs Inst Tables Limits WireP TypedP FramingP SerP RoundTripP ObSerRole ObDeRole ObEnvRt FnShapes Shapes ObShapeFilters Deps ObDeps ObShapeRequest ObShapeStrings ObShapeResponse.
+From Ctap Require Import Base Schema Wire Utf8 Typed WellTyped Procs Inst Tables Limits WireP TypedP FramingP SerP RoundTripP ObSerRole ObDeRole ObEnvRt FnShapes Shapes ObShapeFilters Deps ObDeps ObShapeRequest ObShapeStrings ObShapeResponse ObShapeAccessors ObShapeTablesReq ObShapeTablesInfo.
 Local Open Scope string_scope.
 Local Open Scope Z_scope.
 
@@ -115,7 +115,7 @@ Theorem c15_modelled_functions_unchanged_filters : shapes_hold fn_shapes shapes_
 Proof. exact generated_shapes_filters. Qed.
 
 (* the third-party crates the model represents by hand are pinned at the versions it was written against *)
-Theorem c15_modelled_dependencies_pinned : deps_hold lock_versions cargo_deps = true.
+Theorem c15_modelled_dependencies_pinned : deps_hold repo_lock_present lock_versions harness_lock_versions cargo_deps = true.
 Proof. exact generated_deps. Qed.
 
 (* further hand-modelled functions this property rests on *)
@@ -125,6 +125,15 @@ Theorem c15_modelled_functions_unchanged_strings : shapes_hold fn_shapes shapes_
 Proof. exact generated_shapes_strings. Qed.
 Theorem c15_modelled_functions_unchanged_response : shapes_hold fn_shapes shapes_response = true.
 Proof. exact generated_shapes_response. Qed.
+
+(* lookup tables, accessors, builders and further generators this property rests on *)
+Theorem c15_modelled_functions_unchanged_accessors : shapes_hold fn_shapes shapes_accessors = true.
+Proof. exact generated_shapes_accessors. Qed.
+
+Theorem c15_modelled_functions_unchanged_tables_req : shapes_hold fn_shapes shapes_tables_req = true.
+Proof. exact generated_shapes_tables_req. Qed.
+Theorem c15_modelled_functions_unchanged_tables_info : shapes_hold fn_shapes shapes_tables_info = true.
+Proof. exact generated_shapes_tables_info. Qed.
 
 Eval vm_compute in "ASSUMPTIONS c15_bidirectional_set". Print Assumptions c15_bidirectional_set.
 Eval vm_compute in "ASSUMPTIONS c15_generated_ser". Print Assumptions c15_generated_ser.
@@ -147,3 +156,6 @@ Eval vm_compute in "ASSUMPTIONS c15_modelled_dependencies_pinned". Print Assumpt
 Eval vm_compute in "ASSUMPTIONS c15_modelled_functions_unchanged_request". Print Assumptions c15_modelled_functions_unchanged_request.
 Eval vm_compute in "ASSUMPTIONS c15_modelled_functions_unchanged_strings". Print Assumptions c15_modelled_functions_unchanged_strings.
 Eval vm_compute in "ASSUMPTIONS c15_modelled_functions_unchanged_response". Print Assumptions c15_modelled_functions_unchanged_response.
+Eval vm_compute in "ASSUMPTIONS c15_modelled_functions_unchanged_accessors". Print Assumptions c15_modelled_functions_unchanged_accessors.
+Eval vm_compute in "ASSUMPTIONS c15_modelled_functions_unchanged_tables_req". Print Assumptions c15_modelled_functions_unchanged_tables_req.
+Eval vm_compute in "ASSUMPTIONS c15_modelled_functions_unchanged_tables_info". Print Assumptions c15_modelled_functions_unchanged_tables_info.
